@@ -222,7 +222,7 @@ _PATCHES = {
         ("Mutation components' execute bodies (State + RNG) are not covered.",
          "Mutation components, DE variation operators and the crossover components (State + RNG) are out of reach of both verifiers too and are covered ONLY by bounded native runs over seeds (native_bounded); writing them exposed four genuine defects (InversionMutation, InsertionMutation/translocate pre-condition, TranslocationMutation, DEMutation), all repaired."),
         ("and OptionalPair::from_pair are checked at concrete lengths (<= 4, thorough 5) over all contents and valid index tuples.",
-         "and OptionalPair::from_pair are checked at concrete lengths (<= 4, thorough 5) over all contents and valid index tuples, multi-point crossover also for parents of unequal length."),
+         "and OptionalPair::from_pair are checked at concrete lengths (3 in the quick tier, up to 5 in the thorough tier where CBMC finishes) over all contents and valid index tuples, multi-point crossover also for parents of unequal length; where CBMC does not finish within 50 minutes (translocate and cycle crossover at length 4, the arithmetic formula over three symbolic floats) a bounded native enumeration of the kernels stands in."),
     ],
     "C14": [
         ("sampler distribution and initialisation operators uncovered.",
